@@ -70,7 +70,7 @@ func probe() bool {
 	case "elastic":
 		for k := int64(1); k <= 3; k += 2 {
 			in := encEnqueue(k, []eqQueue{{ID: 1, Open: 1, Mask: 1, CPU: 4000}},
-				[]eqJob{{ID: 1, Queue: 1, Phase: 3, MinMember: 1, NT: 4, TCPU: 1000, Running: 1}, {ID: 2, Queue: 1, Phase: 1, HasMin: 1, Mask: 1, CPU: 4000, MinMember: 1}})
+				[]eqJob{{ID: 1, Queue: 1, Phase: 3, MinMember: 1, NT: 4, TCPU: 1000, Running: 4}, {ID: 2, Queue: 1, Phase: 1, HasMin: 1, Mask: 1, CPU: 4000, MinMember: 1}})
 			fmt.Println(kindName(k), runEnqueueCase(in))
 		}
 	case "enqueue":
